@@ -43,21 +43,21 @@ Cancel == /\ ctx = "live" /\ ctx' = "cancelled"
           /\ UNCHANGED <<done, results, resultsClosed, closingClosed, wg, pcw, pcwt, pcm, ret>>
 
 \* ------------------------------------------------------------ workers
-AfterLoad(i) == IF done = 0 THEN "batch" ELSE "exit"      \* the loop condition atomic.LoadUint32(done) == 0
+\* The loop condition: the stop flag `done` decides; an implementation may also let the workers look at the context
+\* itself, so once the context is cancelled a worker may stop even before the watcher has raised the flag.
+AfterLoadSet == IF done = 1 THEN {"exit"} ELSE IF ctx = "cancelled" THEN {"batch", "exit"} ELSE {"batch"}
 
 KStart(i) == /\ pcw[i] = "init" /\ pcw' = [pcw EXCEPT ![i] = "start"]
              /\ last' = <<"k", i, "start">>
              /\ UNCHANGED <<ctx, done, results, resultsClosed, closingClosed, wg, pcwt, pcm, ret>>
-KLoad(i) == /\ pcw[i] = "start" /\ pcw' = [pcw EXCEPT ![i] = AfterLoad(i)]
-            /\ last' = <<"k", i, AfterLoad(i)>>
+KLoad(i) == /\ pcw[i] = "start" /\ \E nx \in AfterLoadSet : pcw' = [pcw EXCEPT ![i] = nx] /\ last' = <<"k", i, nx>>
             /\ UNCHANGED <<ctx, done, results, resultsClosed, closingClosed, wg, pcwt, pcm, ret>>
 KBatchFound(i) == /\ pcw[i] = "batch" /\ Mode \in {"always", "either"}
                   /\ pcw' = [pcw EXCEPT ![i] = "found"]
                   /\ last' = <<"k", i, "found">>
                   /\ UNCHANGED <<ctx, done, results, resultsClosed, closingClosed, wg, pcwt, pcm, ret>>
 KBatchNone(i) == /\ pcw[i] = "batch" /\ Mode \in {"never", "either"}
-                 /\ pcw' = [pcw EXCEPT ![i] = AfterLoad(i)]
-                 /\ last' = <<"k", i, AfterLoad(i)>>
+                 /\ \E nx \in AfterLoadSet : pcw' = [pcw EXCEPT ![i] = nx] /\ last' = <<"k", i, nx>>
                  /\ UNCHANGED <<ctx, done, results, resultsClosed, closingClosed, wg, pcwt, pcm, ret>>
 KStore(i) == /\ pcw[i] = "found" /\ done' = 1 /\ pcw' = [pcw EXCEPT ![i] = "stored"]
              /\ last' = <<"k", i, "stored">>
@@ -102,7 +102,11 @@ MEarly == /\ pcm = "waiting" /\ ctx = "cancelled" /\ pcwt = "init" /\ \A i \in W
           /\ pcw' = [i \in Workers |-> "finished"] /\ pcwt' = "finished" /\ wg' = 0
           /\ last' = <<"m", 0, "returned">>
           /\ UNCHANGED <<ctx, done, results, resultsClosed, closingClosed>>
-MainStep == MJoin \/ MClose \/ MRecv \/ MEarly
+\* Once the context is cancelled the cancellation error is a legitimate answer even if a nonce was delivered as well
+MRecvCancelled == /\ pcm = "closed" /\ ctx = "cancelled" /\ pcm' = "returned" /\ ret' = -1
+                  /\ last' = <<"m", 0, "returned">>
+                  /\ UNCHANGED <<ctx, done, results, resultsClosed, closingClosed, wg, pcw, pcwt>>
+MainStep == MJoin \/ MClose \/ MRecv \/ MRecvCancelled \/ MEarly
 
 Next == Cancel \/ (\E i \in Workers : WorkerStep(i)) \/ WatcherStep \/ MainStep
 
